@@ -463,7 +463,7 @@ class ConnGen:
             self.ghosts = {}
             for _ in range(d.int(1, 3)):
                 self.ghosts[self.next_client] = d.choice(['wl_compositor', 'wl_shm', 'wl_surface', 'wl_seat', 'wl_shm_pool', 'xdg_wm_base', 'wl_data_device_manager',
-                                                           'wl_subcompositor', 'wl_buffer', 'wl_region', 'zz_custom_v9'])
+                                                           'wl_subcompositor', 'wl_buffer', 'wl_region', 'zz_custom_v9', 'wl_registry', 'wl_registry'])
                 self.next_client += 1
         gid = d.choice(sorted(self.ghosts))
         iface = self.ghosts[gid]
@@ -474,6 +474,12 @@ class ConnGen:
             self.dead[gid] = iface
             self.gens.setdefault(gid, 0)
             return dict(sent=self.sent(True), iface='wl_display', id=1, name='delete_id', args=[['uint', gid]])
+        if iface == 'wl_registry':
+            # a registry obtained before the log started: what is bound through it comes into being like any other object
+            t = d.choice(CORE)
+            oid = self.alloc_client(d)
+            self._born(oid, t)
+            return dict(sent=self.sent(False), iface='wl_registry', id=gid, name='bind', args=[['uint', d.int(1, 60)], ['str', t], ['uint', d.int(1, 9)], ['new', None, oid]])
         if iface not in P:
             args = [['int', d.int(-5, 5)]] if d.chance(0.5) else []
             if d.chance(0.6):
@@ -666,7 +672,13 @@ def labels_of(hist):
     from . import model
     L = set()
     W = model.MWorld()
-    recs = [W.step(m) for m in hist]
+    recs = []
+    for m in hist:
+        if m.get('destroy'):
+            W.close(m['conn'])
+            L.add('connection-destroyed')
+        else:
+            recs.append(W.step(m))
     if len(W.conns) > 1: L.add('multi-connection')
     mx = max((len(l) for c in W.conns.values() for l in c.db.values()), default=1)
     if mx >= 2: L.add('id-reused>=1')
